@@ -597,26 +597,51 @@ func safeRun[C any](run func(C) Outcome, cs C) (out Outcome) {
 	return run(cs)
 }
 
-// Replay runs the replay file named by VERIF_REPLAY.  Used by TestReplay of
-// every harness package.
+// Replay runs the replay file named by VERIF_REPLAY; when it names a directory
+// (the committed regression corpus /verif/regress/<ID>), every *.json file in
+// it, in name order.  Used by TestReplay of every harness package.
 func Replay(t *testing.T, c *Collector) {
 	path := os.Getenv("VERIF_REPLAY")
 	if path == "" {
 		t.Skip("VERIF_REPLAY not set")
 	}
+	defer c.Flush()
+	if fi, err := os.Stat(path); err == nil && fi.IsDir() {
+		names, _ := filepath.Glob(filepath.Join(path, "*.json"))
+		sort.Strings(names)
+		for _, n := range names {
+			replayOne(t, c, n, true)
+		}
+		return
+	}
+	replayOne(t, c, path, false)
+}
+
+func replayOne(t *testing.T, c *Collector, path string, corpus bool) {
+	fatal := t.Fatalf
+	if corpus {
+		// A stale corpus file must not make the check red.
+		fatal = func(format string, a ...any) {
+			c.Count("regress-unusable", 1)
+			t.Logf(path+": "+format, a...)
+		}
+	}
 	data, err := os.ReadFile(path)
 	if err != nil {
-		t.Fatalf("replay: %v", err)
+		fatal("replay: %v", err)
+		return
 	}
 	var rf ReplayFile
 	if err := json.Unmarshal(data, &rf); err != nil {
-		t.Fatalf("replay: %v", err)
+		fatal("replay: %v", err)
+		return
 	}
 	unitsMu.Lock()
 	run, ok := unitsReg[rf.Unit]
 	unitsMu.Unlock()
 	if !ok {
-		t.Fatalf("replay: unknown unit %q (units must be registered in init)", rf.Unit)
+		fatal("replay: unknown unit %q (units must be registered in init)", rf.Unit)
+		return
 	}
 	var cs interface{}
 	var out Outcome
@@ -630,7 +655,11 @@ func Replay(t *testing.T, c *Collector) {
 		cs, out, err = run(rf.Case)
 	}()
 	if err != nil {
-		t.Fatalf("replay: %v", err)
+		fatal("replay: %v", err)
+		return
+	}
+	if corpus {
+		out.Classes = append(out.Classes, "regress")
 	}
 	if c.Record(rf.Unit, cs, out) {
 		c.mu.Lock()
@@ -639,7 +668,6 @@ func Replay(t *testing.T, c *Collector) {
 		c.mu.Unlock()
 		t.Errorf("replay reproduces: sig=%s: %s", out.Sig, out.Err)
 	} else {
-		t.Logf("replay does not reproduce (outcome: err=%q skip=%q)", out.Err, out.Skip)
+		t.Logf("%s: does not reproduce (outcome: err=%q skip=%q)", filepath.Base(path), out.Err, out.Skip)
 	}
-	c.Flush()
 }
